@@ -88,3 +88,7 @@ func verifCleanupFiles() {
 	}
 	verifTempFiles = nil
 }
+
+// verifPipeWriteFails makes writes to the stdin pipe of the next modelled child fail (engine only).
+// Natively the situation (a child that exits before reading) is a race and cannot be produced on demand.
+func verifPipeWriteFails(on bool) { panic(verifNotReplayable{}) }
